@@ -62,7 +62,7 @@ PROPS = {
     "C20": {"scen": [("c20trace", ["debug", "debugn"]), ("c20traceg", ["debug"]), ("c20img", ["debug", "debugn"])], "quick": 24, "thorough": 600},
     "C14": {"scen": [("c14", ["asan"]), ("c14tbb", ["asantbb"]), ("c14glibc", ["glibc"]), ("c14mt", ["tbb"])], "quick": 24, "thorough": 600},
     "C15": {"scen": [("c15", ["asan", "asann"])], "quick": 20, "thorough": 600},
-    "C16": {"scen": [("c16", ["asan", "asann"]), ("c16mt", ["debug", "debugn"])], "quick": 24, "thorough": 600},
+    "C16": {"scen": [("c16", ["asan", "asann"]), ("c16mt", ["debug", "debugn"])], "quick": 32, "thorough": 600},
 }
 
 
